@@ -296,57 +296,56 @@ def execute(sc, ctx):
         out.event('semantics refused', type(e).__name__, str(e)[:120])
         return out
 
-    # ---- R5: the sequential chain model
-    expected = []          # per event: ('ok', claim K-terms) | ('refuse',)
-    cur = sc['start']
-    for e in events:
-        r = rules[e['rule']]
-        l, rr = ksubst(r['lhs'], e['subst']), ksubst(r['rhs'], e['subst'])
-        if l != cur:
-            expected.append(('refuse', l, cur))
-            break
-        expected.append(('ok', r['sort'], l, rr))
-        cur = rr
-
-    # ---- drive the real front end event by event
+    # ---- R5, the sequential chain model, stepped together with the real front end.  A refused event
+    # leaves both unchanged (the caller may catch the refusal and go on delivering events).
     pe = ExecutionProofExp(sem, start_cfg)
     exp_claims = []
-    stopped = None
+    cur = sc['start']
+    accepted_steps = []
+
+    def state():
+        return ([B.py_expand(c) for c in pe._claims], [B.py_expand(p.conc) for p in pe._proof_expressions], B.py_expand(pe.current_configuration))
+
     for k, e in enumerate(events):
         ri = e['rule']
-        exp = expected[k] if k < len(expected) else None
-        if exp is None:
-            break
-        state = 'match' if exp[0] == 'ok' else 'mismatch'
-        out.transitions.add('%s/%s/%s' % ('rewrite_event', state, sc['path']))
+        r = rules[ri]
+        l, rr = ksubst(r['lhs'], e['subst']), ksubst(r['rhs'], e['subst'])
+        matches = (l == cur)
+        st = 'match' if matches else 'mismatch'
+        out.transitions.add('%s/%s/%s' % ('rewrite_event', st, sc['path']))
+        before = state()
         try:
             th = pe.rewrite_event(get_rule(ri), conv_subst(ri, e['subst']))
             raised = None
-        except AssertionError as ex:
-            raised = ex
         except Exception as ex:
             raised = ex
         out.ops += 1
-        out.event(k, ri, state, 'raised' if raised else 'ok', repr(e['subst'])[:80])
-        if exp[0] == 'refuse':
-            if raised is None:
-                out.violate('a step that does not start at the reached configuration is refused', 'C20|chain|mismatching-step-accepted',
-                            'event %d (rule %d, subst %s): lhs %s but the chain is at %s' % (k, ri, e['subst'], exp[1], exp[2]))
+        out.event(k, ri, st, 'raised' if raised else 'ok', repr(e['subst'])[:80])
+        if raised is not None:
+            if matches:
+                dup = (r['sort'], l, rr) in accepted_steps
+                out.violate('a step that starts at the reached configuration is accepted',
+                            'C20|chain|repeated-identical-step-refused' if dup else 'C20|chain|matching-step-refused|%s|%s' % (type(raised).__name__, _where(raised, e, sc)),
+                            'event %d (rule %d, subst %s): %s' % (k, ri, e['subst'], str(raised)[:300]))
             else:
                 out.probe('mismatching_step_refused')
-            stopped = k
+            # whatever the reason, a refused step must leave the module where it was
+            after = state()
+            if after != before:
+                what = 'claims' if after[0] != before[0] else 'proof-expressions' if after[1] != before[1] else 'current-configuration'
+                out.violate('a refused step leaves the module unchanged: the next step must still start from the configuration the last accepted step reached',
+                            'C20|chain|refused-step-changed-state|' + what, 'event %d (rule %d, subst %s) was refused (%s) but changed the %s' % (k, ri, e['subst'], type(raised).__name__, what))
+                break
+            continue
+        if not matches:
+            out.violate('a step that does not start at the reached configuration is refused', 'C20|chain|mismatching-step-accepted',
+                        'event %d (rule %d, subst %s): lhs %s but the chain is at %s' % (k, ri, e['subst'], l, cur))
             break
-        if raised is not None:
-            dup = ('ok', exp[1], exp[2], exp[3]) in [x for x in expected[:k]]
-            out.violate('a step that starts at the reached configuration is accepted',
-                        'C20|chain|repeated-identical-step-refused' if dup else 'C20|chain|matching-step-refused|%s|%s' % (type(raised).__name__, _where(raised, e, sc)),
-                        'event %d (rule %d, subst %s): %s' % (k, ri, e['subst'], str(raised)[:300]))
-            stopped = k
-            break
-        claim = kl.kore_rewrites(sem.get_sort(exp[1]).aml_symbol, img(sem, exp[2], {}, sc), img(sem, exp[3], {}, sc))
+        accepted_steps.append((r['sort'], l, rr))
+        cur = rr
+        claim = kl.kore_rewrites(sem.get_sort(r['sort']).aml_symbol, img(sem, l, {}, sc), img(sem, rr, {}, sc))
         exp_claims.append(B.py_expand(claim))
         got_claims = [B.py_expand(c) for c in pe._claims]
-        # a repeated identical step would re-declare an identical claim; the chain model collapses nothing, the toolkit asserts
         if got_claims != exp_claims:
             out.violate('the module claims exactly the instantiated rewrite of each step, in order', 'C20|chain|claims-differ',
                         'after event %d: expected %s got %s' % (k, [B.show_ext(c) for c in exp_claims], [B.show_ext(c) for c in got_claims]))
@@ -354,7 +353,7 @@ def execute(sc, ctx):
         if B.py_expand(th.conc) != exp_claims[-1] or [B.py_expand(p.conc) for p in pe._proof_expressions] != exp_claims:
             out.violate('each proof expression advertises exactly its claim', 'C20|chain|advertised-conclusion-differs', 'event %d' % k)
             break
-        if B.py_expand(pe.current_configuration) != B.py_expand(img(sem, exp[3], {}, sc)):
+        if B.py_expand(pe.current_configuration) != B.py_expand(img(sem, rr, {}, sc)):
             out.violate('the next step must start from the configuration this one reached', 'C20|chain|current-configuration-differs',
                         'after event %d: %s' % (k, B.show_ext(B.py_expand(pe.current_configuration))))
             break
@@ -362,7 +361,7 @@ def execute(sc, ctx):
             out.violate('the rule used is among the axioms', 'C20|chain|rule-not-an-axiom', 'event %d' % k)
             break
     if len(exp_claims) >= 2: out.probe('claims_ge2')
-    if out.violations or not exp_claims:
+    if any(not v['signature'].startswith(('C20|chain|repeated-identical-step-refused', 'C20|chain|matching-step-refused')) for v in out.violations) or not exp_claims:
         return out
     # ---- the module is serialised and checked
     from ..simfs import SimFS
